@@ -726,3 +726,82 @@ func c01Static(c *explore.C, tier universe.Tier) {
 		c01RoundTrip(c, rs, build(0), nil, fmt.Sprintf("c: R word %v wide=%v", word, wide))
 	}
 }
+
+// ---- C01 phase 3: very large containers and strings ----
+
+func init() {
+	ck := harness.Lookup("C01")
+	old := ck.Phases
+	ck.Phases = func(tier universe.Tier) []*harness.Phase {
+		return append(old(tier), &harness.Phase{
+			Name: "huge",
+			Rule: "10 container shapes (pointer / by-value / scalar / string elements, keys and values) x element counts {4097, 65536, 70000} and strings of 70000 and 1<<20 bytes: round trip, size and foreign reader",
+			Body: func(c *explore.C) { c01Huge(c, tier) },
+		})
+	}
+}
+
+func c01Huge(c *explore.C, tier universe.Tier) {
+	sc := universe.Sc
+	lf, lfx := universe.Leaf(), universe.LeafFixed()
+	shapes := []*ref.Type{
+		universe.ListOf(universe.StPtr(lf)), universe.ListOf(universe.StVal(lfx)), universe.ListOf(sc(ref.KString)), universe.SetOf(sc(ref.KI64)), universe.ListOf(sc(ref.KBool)),
+		universe.MapOf(sc(ref.KI32), universe.StPtr(lf)), universe.MapOf(sc(ref.KString), universe.StVal(lfx)), universe.MapOf(universe.StPtr(lfx), sc(ref.KI8)),
+		universe.MapOf(sc(ref.KI64), sc(ref.KString)), universe.ListOf(universe.ListOf(sc(ref.KI16))),
+	}
+	si := c.Choose(len(shapes)+1, explore.Data, "shape")
+	ni := c.Choose(3, explore.Data, "count")
+	harness.Cur.Crumb(c.Choices())
+	hooks.Reset()
+	n := []int{4097, 65536, 70000}[ni]
+	var s *ref.Struct
+	var v *ref.Val
+	if si == len(shapes) {
+		s = mk(fd(1, ref.ReqDefault, sc(ref.KString)), fd(2, ref.ReqDefault, sc(ref.KBinary)))
+		l := []int{70000, 1 << 20, 65536}[ni]
+		b := make([]byte, l)
+		for i := range b {
+			b[i] = byte(i * 31)
+		}
+		v = &ref.Val{K: ref.KStruct, F: []*ref.Val{{K: ref.KString, B: b}, {K: ref.KBinary, B: b[:l/2]}}}
+	} else {
+		t := shapes[si]
+		s = mk(fd(1, ref.ReqDefault, t))
+		cv := &ref.Val{K: t.Kind}
+		for i := 0; i < n; i++ {
+			if t.Kind == ref.KMap {
+				cv.M = append(cv.M, [2]*ref.Val{universe.Nth(t.Key, i), universe.Nth(t.Elem, i)})
+			} else {
+				cv.L = append(cv.L, universe.Nth(t.Elem, i))
+			}
+		}
+		v = &ref.Val{K: ref.KStruct, F: []*ref.Val{cv}}
+	}
+	want := ref.Encode(s, v)
+	src := universe.New(s, v)
+	if r := Size(src.Interface()); r.Panic != nil || r.N != len(want) {
+		c.Fail(fmt.Sprintf("EncodedSize %v, want %d", r, len(want)), mkCase("C01", "size-mismatch", s, nil, nil, fmt.Sprint("elements: ", n)))
+		return
+	}
+	buf := make([]byte, len(want))
+	r := Enc(buf, src.Interface())
+	if r.Panic != nil || r.Err != nil || r.N != len(want) {
+		c.Fail(fmt.Sprintf("EncodeObject of a %d-element value: %v", n, r), mkCase("C01", "encode-failed", s, nil, nil, fmt.Sprint("elements: ", n)))
+		return
+	}
+	dst := universe.New(s, nil)
+	d := Dec(buf, dst.Interface())
+	if d.Panic != nil || d.Err != nil || d.N != r.N {
+		c.Fail(fmt.Sprintf("DecodeObject of frugal's own %d-element encoding: %v", n, d), mkCase("C01", "decode-failed", s, nil, nil, fmt.Sprint("elements: ", n)))
+		return
+	}
+	exp := ref.Decode(s, want, nil, ref.DecOpts{})
+	if g := universe.ReadStruct(s, dst.Elem()); g.Canon() != exp.V.Canon() {
+		c.Fail(fmt.Sprintf("a %d-element value does not round-trip", n), mkCase("C01", "value-mismatch", s, nil, nil, fmt.Sprint("elements: ", n)))
+		return
+	}
+	harness.Cur.Outcome(harness.Hash64([]byte(s.String()), []byte{byte(ni)}), "huge")
+	harness.Cur.Sample(func() interface{} {
+		return map[string]interface{}{"type": s.String(), "elements": n, "bytes": len(want)}
+	})
+}
